@@ -74,14 +74,17 @@ def resolve(function: ValidResolvers, params: Dict, mappings: Dict[str, Dict], c
     raise ValueError(f"Not supported type: {type(function)}")
 
 
-def _render_scalars(value):
+def _render_scalars(value, params):
     # Scalars are rendered as strings, as when they are written in the template
     if isinstance(value, bool):
         return "true" if value else "false"
     if isinstance(value, (int, float)):
         return str(value)
+    if isinstance(value, str):
+        # Same treatment as text written in the template: SSM dynamic references and boolean spelling
+        return resolve(value, params, {}, {})
     if isinstance(value, list):
-        return [_render_scalars(entry) for entry in value]
+        return [_render_scalars(entry, params) for entry in value]
     return value
 
 
@@ -98,7 +101,7 @@ def resolve_ssm(ssm_parameter_key: str, params: Dict) -> str:
 def resolve_ref(function_body, params: Dict, mappings: Dict[str, Dict], conditions: Dict[str, bool]) -> str:
     resolved_ref = resolve(function_body, params, mappings, conditions)
     if resolved_ref in params:
-        return _render_scalars(params[resolved_ref])
+        return _render_scalars(params[resolved_ref], params)
     else:
         logger.warning(f"Using `UNDEFINED_PARAM_{resolved_ref}` for {resolved_ref}. Original value wasn't available.")
         return f"UNDEFINED_PARAM_{resolved_ref}"
